@@ -4,6 +4,7 @@ Expressions are in expr.py (mixin), builtins in builtins_ax.py (mixin).
 List-monad style: every exec/eval returns all paths.
 """
 import ast
+import os
 import z3
 
 from . import extract
@@ -93,6 +94,8 @@ class Engine(ExprMixin, BuiltinMixin):
         key = tuple(c.get_id() for c in st.pc)
         if key in self._prune_cache:
             return self._prune_cache[key]
+        if getattr(st, "strpc", False) and os.environ.get("PYVC_STR_FEAS", "inproc") == "skip":
+            return True
         self.stats["feasibility_checks"] += 1
         s = z3.Solver()
         # string-heavy path conditions are not worth a serial check here: infeasible paths only cost extra
@@ -100,7 +103,10 @@ class Engine(ExprMixin, BuiltinMixin):
         s.set("timeout", 25 if getattr(st, "strpc", False) else self.prune_timeout_ms)
         for c in st.pc:
             s.add(c)
-        r = s.check() != z3.unsat
+        if getattr(st, "strpc", False) and os.environ.get("PYVC_STR_FEAS", "fork") == "fork":
+            r = _guarded_not_unsat(s)
+        else:
+            r = s.check() != z3.unsat
         self._prune_cache[key] = r
         if not r:
             self.stats["paths_pruned"] += 1
@@ -570,6 +576,40 @@ def _as_load(t):
     if isinstance(t, ast.Subscript):
         return ast.Subscript(value=t.value, slice=t.slice, ctx=ast.Load())
     raise OutOfReach("augmented assignment target")
+
+
+def _guarded_not_unsat(solver, hard_limit_s=1.5):
+    """`solver.check() != unsat` for a string-heavy path condition, run in a forked child: z3's in-process timeout is not always
+    honoured by the sequence solver (a check was seen to hang a whole run), a child can be killed. The child inherits the solver by
+    copy-on-write, answers through its exit status, and is killed at the hard limit - which counts as "may be feasible"."""
+    import time
+    try:
+        pid = os.fork()
+    except OSError:
+        return solver.check() != z3.unsat
+    if pid == 0:
+        code = 12
+        try:
+            code = 10 if solver.check() == z3.unsat else 11
+        except BaseException:
+            code = 12
+        os._exit(code)
+    deadline = time.time() + hard_limit_s
+    while True:
+        wpid, status = os.waitpid(pid, os.WNOHANG)
+        if wpid:
+            code = os.WEXITSTATUS(status) if os.WIFEXITED(status) else 12
+            break
+        if time.time() > deadline:
+            try:
+                os.kill(pid, 9)
+            except OSError:
+                pass
+            os.waitpid(pid, 0)
+            code = 12
+            break
+        time.sleep(0.0004)
+    return code != 10
 
 
 def unit(f):
